@@ -160,6 +160,20 @@ impl InflateState {
     }
 }
 
+/// Read-only observation hooks for the external verification harness.
+#[cfg(feature = "verif-hooks")]
+impl InflateState {
+    /// (dict_ofs, dict_avail, first_call, has_flushed)
+    pub fn verif_probe(&self) -> (usize, usize, bool, bool) {
+        (
+            self.dict_ofs,
+            self.dict_avail,
+            self.first_call,
+            self.has_flushed,
+        )
+    }
+}
+
 /// Try to decompress from `input` to `output` with the given [`InflateState`]
 ///
 /// # `flush`
